@@ -320,8 +320,62 @@ fn coin_node(out_node: &Node) -> Option<&Node> {
     }
 }
 
+/// the stand-alone function on an output a session hands to the builder (admitted or refused)
+fn min_ada_fn_clause(k: &Knobs, lo: &csl::TransactionOutput, what: &str, out: &mut Outcome) {
+    let c = match csl::min_ada_for_output(lo, &csl::DataCost::new_coins_per_byte(&csl::BigNum::from(k.cpb))) {
+        Ok(c) => u64::from(c),
+        Err(_) => return,
+    };
+    let bytes = lo.to_bytes();
+    let n = match cbor::parse(&bytes) {
+        Ok(n) => n,
+        Err(_) => return,
+    };
+    let cn = match coin_node(&n) {
+        Some(c) => c,
+        None => return,
+    };
+    let coin = match cn.as_u64() {
+        Some(c) => c,
+        None => return,
+    };
+    let size = bytes.len();
+    let m = c.max(coin);
+    let size_m = size - cn.len() + head_len(m);
+    let size_w = size - cn.len() + 9;
+    out.count("c07.min_ada_fn_checked", 1);
+    if (m as u128) < k.cpb as u128 * (160 + size_m as u128) {
+        out.violate("C07.min_ada_fn", "result_too_small", format!("{}: min_ada_for_output = {}, coin {}: max = {} < {} x (160 + {})", what, c, coin, m, k.cpb, size_m));
+    }
+    if (c as u128) > k.cpb as u128 * (160 + size_w as u128) {
+        out.violate("C07.min_ada_fn", "result_above_widest_bound", format!("{}: min_ada_for_output = {} > {} x (160 + {})", what, c, k.cpb, size_w));
+    }
+}
+
 pub fn eval_c07(sc: &Scenario, h: &History, signed: &Signeds, out: &mut Outcome) {
     let k = &sc.knobs;
+    // outputs the session hands to the builder, as given and with an empty coin (what the output
+    // builder's "minimum required coin" path starts from)
+    {
+        let sess = crate::exec::Session::new(sc);
+        for (i, op) in sc.ops.iter().enumerate() {
+            if let Op::Out(o) = op {
+                if matches!(h.results.get(i), Some(crate::exec::Res::Skipped(_)) | None) {
+                    continue;
+                }
+                let mut o2 = o.clone();
+                o2.min_coin = false;
+                if let Ok(lo) = sess.output(&o2) {
+                    out.nontrivial = true;
+                    min_ada_fn_clause(k, &lo, &format!("op {} requested output", i), out);
+                }
+                o2.coin = 0;
+                if let Ok(lo) = sess.output(&o2) {
+                    min_ada_fn_clause(k, &lo, &format!("op {} requested output with coin 0", i), out);
+                }
+            }
+        }
+    }
     for (bi, b) in h.built.iter().enumerate() {
         if b.balanced_at.is_none() && b.full {
             continue;
@@ -486,6 +540,8 @@ fn profile_c07() -> Profile {
     p.byron = 250;
     p.width_edges = 300;
     p.plutus = 100;
+    p.whale = 350;
+    p.boundary_outputs = 150;
     p
 }
 
